@@ -157,6 +157,34 @@ pub fn observe(m: &Melda, blocks: bool, staging: bool) -> Value {
     }
 }
 
+/// the part of the state the protocol model tracks
+pub fn model_obs(m: &Melda) -> Value {
+    let r = catch_unwind(AssertUnwindSafe(|| {
+        let mut trees = Map::new();
+        for u in m.get_all_objects() {
+            let dump: Vec<Value> = m.verif_tree_dump(&u).unwrap_or_default().into_iter().map(|(r, p, s)| json!([r, p, s])).collect();
+            let w = m.get_winner(&u).ok();
+            let mut l: Vec<String> = m.get_conflicting(&u).map(|s| s.into_iter().collect()).unwrap_or_default();
+            if let Some(w) = &w {
+                l.push(w.clone());
+            }
+            l.sort();
+            trees.insert(u, json!({"e": dump, "w": w, "l": l}));
+        }
+        let deltas: Map<String, Value> = m.verif_delta_status().into_iter().map(|(k, v)| (k, json!(v))).collect();
+        let mut anchors: Vec<String> = m.get_anchors().iter().map(|a| a.to_string()).collect();
+        anchors.sort();
+        let (idx, _) = m.verif_data_index();
+        let mut objects: Vec<String> = idx.into_iter().map(|x| x.0).collect();
+        objects.sort();
+        objects.dedup();
+        let mut packs = m.verif_applied_packs();
+        packs.sort();
+        json!({"deltas": deltas, "trees": trees, "anchors": anchors, "objects": objects, "packs": packs})
+    }));
+    r.unwrap_or(Value::Null)
+}
+
 fn obs_doc(m: &Melda) -> Value {
     observe(m, true, false)
 }
@@ -212,6 +240,10 @@ pub struct World {
     pub stats: BTreeMap<String, usize>,
     pub op_index: usize,
     pub light: bool,
+    /// primitive-level trace for the model driver
+    pub ptrace: Vec<String>,
+    pub emitted_items: Vec<Items>,
+    pub ptrace_on: bool,
 }
 
 static OP_START: AtomicU64 = AtomicU64::new(0);
@@ -259,7 +291,56 @@ impl World {
                 array_conflict_seen: false,
             });
         }
-        World { reps, trace: vec![], fails: vec![], key_seq: HashMap::new(), stats: BTreeMap::new(), op_index: 0, light }
+        let n = reps.len();
+        let mut w = World {
+            reps,
+            trace: vec![],
+            fails: vec![],
+            key_seq: HashMap::new(),
+            stats: BTreeMap::new(),
+            op_index: 0,
+            light,
+            ptrace: vec![],
+            emitted_items: vec![Items::new(); n],
+            ptrace_on: backend == "sim",
+        };
+        w.ptrace.push(js(&json!({"p": "init", "n": n})));
+        for i in 0..n {
+            let res = if w.reps[i].m.is_some() { "ok" } else { "err" };
+            w.emit("new", i, res, json!({}));
+        }
+        w
+    }
+
+    /// one line of the primitive-level trace: what was called, what storage gained, what the replica shows
+    fn emit(&mut self, prim: &str, r: usize, res: &str, extra: Value) {
+        if !self.ptrace_on {
+            return;
+        }
+        let items = self.reps[r].be.snapshot();
+        let mut new = Map::new();
+        for (k, v) in &items {
+            if !self.emitted_items[r].contains_key(k) {
+                new.insert(k.clone(), Value::from(hex::encode(v)));
+            }
+        }
+        self.emitted_items[r] = items;
+        let obs = match &self.reps[r].m {
+            Some(m) => model_obs(m),
+            None => Value::Null,
+        };
+        let mut o = Map::new();
+        o.insert("p".into(), json!(prim));
+        o.insert("r".into(), json!(r));
+        o.insert("res".into(), json!(res));
+        o.insert("items".into(), Value::from(new));
+        o.insert("obs".into(), obs);
+        if let Value::Object(e) = extra {
+            for (k, v) in e {
+                o.insert(k, v);
+            }
+        }
+        self.ptrace.push(js(&Value::from(o)));
     }
 
     fn fail(&mut self, prop: &str, what: String) {
@@ -602,6 +683,7 @@ impl World {
             fails.push(("C04", "submitting the same document twice changed the replica".into()));
         }
         self.reps[r].last_doc = doc.clone();
+        self.emit("adopt", r, "ok", json!({}));
         if !arr_conf.is_empty() {
             self.stat("update_with_array_conflict");
         }
@@ -625,6 +707,15 @@ impl World {
         let mut fails: Vec<(&str, String)> = vec![];
         let log = if let Backend::Sim(s) = &self.reps[r].be { s.take_log() } else { vec![] };
         let items_after = self.reps[r].be.snapshot();
+        {
+            let (cls, extra) = match &res {
+                Ok(None) => ("none", json!({})),
+                Ok(Some(a)) => ("ok", json!({"id": a.iter().next().map(|x| x.to_string())})),
+                Err(_) => ("err", json!({})),
+            };
+            self.emit("commit", r, cls, extra);
+        }
+        let m = self.reps[r].m.as_ref().unwrap();
         if had_arr_conf && had_staging {
             *self.stats.entry("commit_with_array_conflict".into()).or_insert(0) += 1;
         }
@@ -795,6 +886,8 @@ impl World {
             }
         }
         ra.dirty = true;
+        let cls = if res.is_ok() { "ok" } else { "err" };
+        self.emit("meld", r, cls, json!({"from": from}));
         for (p, w) in fails {
             self.fail(p, w);
         }
@@ -841,6 +934,8 @@ impl World {
                 }
             }
         }
+        let cls = if res.is_ok() { "ok" } else { "err" };
+        self.emit("refresh", r, cls, json!({}));
         for (p, w) in fails {
             self.fail(p, w);
         }
@@ -879,6 +974,8 @@ impl World {
                 }
             }
         }
+        let cls = if res.is_ok() { "ok" } else { "err" };
+        self.emit("reload", r, cls, json!({}));
         for (p, w) in fails {
             self.fail(p, w);
         }
@@ -904,8 +1001,10 @@ impl World {
                 }
                 self.reps[r].m = Some(m);
                 self.reps[r].dirty = false;
+                self.emit("new", r, "ok", json!({}));
             }
             Err(e) => {
+                self.emit("new", r, "err", json!({}));
                 self.fail("C03", format!("cannot reopen a replica on its own storage: {}", msg_prefix(&e.to_string())));
                 self.fail("C17", format!("cannot reopen a replica on its own storage: {}", msg_prefix(&e.to_string())));
             }
@@ -1002,6 +1101,7 @@ impl World {
             Ok(Ok(_)) => fails.push(("C07", "resolving an object that is no longer in conflict succeeded".into())),
             Err(_) => fails.push(("C08", "resolve_as aborted".into())),
         }
+        self.emit("adopt", r, "ok", json!({}));
         for (p, w) in fails {
             self.fail(p, w);
         }
@@ -1028,6 +1128,7 @@ impl World {
         if staged {
             self.stat("unstage_with_staging");
         }
+        self.emit("unstage", r, "ok", json!({}));
         for (p, w) in fails {
             self.fail(p, w);
         }
@@ -1042,6 +1143,8 @@ impl World {
         let before = obs_full(m);
         let s = m.stage().unwrap();
         let _ = m.unstage();
+        self.emit("unstage", r, "ok", json!({}));
+        let m = self.reps[r].m.as_mut().unwrap();
         let mut fails: Vec<(&str, String)> = vec![];
         if let Some(c) = clean {
             let now = obs_full(m);
@@ -1053,6 +1156,7 @@ impl World {
             fails.push(("C15", format!("replaying an exported stage failed: {}", msg_prefix(&e.to_string()))));
         }
         let after = obs_full(m);
+        self.emit("adopt", r, "ok", json!({}));
         if after != before {
             fails.push(("C15", format!("export, discard and replay does not restore the staged state: {}", first_diff(&before, &after))));
         }
@@ -1073,6 +1177,7 @@ impl World {
         if rd != read_before {
             fails.push(("C12", format!("a full snapshot changed the visible document: before {} after {}", js(&read_before), js(&rd))));
         }
+        self.emit("adopt", r, "ok", json!({}));
         for (p, w) in fails {
             self.fail(p, w);
         }
@@ -1092,6 +1197,7 @@ impl World {
         let k = missing[pick % missing.len()].clone();
         self.reps[r].be.put(&k, &src[&k]);
         self.reps[r].dirty = true;
+        self.emit("put", r, "ok", json!({}));
         self.stat("deliver_single_file");
         let staged = self.reps[r].m.as_ref().map(|m| m.has_staging()).unwrap_or(true);
         if !staged {
@@ -1116,7 +1222,10 @@ impl World {
         }
         let set: BTreeSet<DeltaId> = anchors.iter().map(|a| DeltaId::from(a).unwrap()).collect();
         let mut fails: Vec<(&str, String)> = vec![];
-        match m.reload_until(&set) {
+        let tt = m.reload_until(&set);
+        self.emit("until", r, if tt.is_ok() { "ok" } else { "err" }, json!({"anchors": anchors}));
+        let m = self.reps[r].m.as_ref().unwrap();
+        match tt {
             Err(e) => fails.push(("C14", format!("time travel to former heads {:?} failed: {}", anchors, msg_prefix(&e.to_string())))),
             Ok(()) => {
                 let got = obs_noblocks(m);
@@ -1142,7 +1251,10 @@ impl World {
         }
         self.check_graph(r);
         let m = self.reps[r].m.as_ref().unwrap();
-        match m.reload() {
+        let rl = m.reload();
+        self.emit("reload", r, if rl.is_ok() { "ok" } else { "err" }, json!({}));
+        let m = self.reps[r].m.as_ref().unwrap();
+        match rl {
             Err(e) => fails.push(("C14", format!("reload after time travel failed: {}", msg_prefix(&e.to_string())))),
             Ok(()) => {
                 if !self.light {
@@ -1169,6 +1281,7 @@ impl World {
         let u = &objs[pick % objs.len()];
         let _ = m.delete_object(u);
         let rd = read_res(m);
+        self.emit("adopt", r, "ok", json!({}));
         if rd.get("ok").is_none() {
             self.fail("C08", format!("read fails after delete_object: {}", js(&rd)));
         }
@@ -1195,9 +1308,19 @@ impl World {
         let f_before = fresh_obs(&items_before);
         let mut fails: Vec<(&str, String)> = vec![];
         for _ in 0..repeats {
+            let m = self.reps[r].m.as_ref().unwrap();
             store.set_fail(fail.clone());
             let res = catch_unwind(AssertUnwindSafe(|| m.commit(info.clone())));
             store.set_fail(vec![]);
+            {
+                let (cls, extra) = match &res {
+                    Ok(Ok(None)) => ("none", json!({})),
+                    Ok(Ok(Some(a))) => ("ok", json!({"id": a.iter().next().map(|x| x.to_string())})),
+                    _ => ("err", json!({})),
+                };
+                self.emit("commit", r, cls, extra);
+            }
+            let m = self.reps[r].m.as_ref().unwrap();
             match res {
                 Err(_) => fails.push(("C08", "commit aborted on a write failure".into())),
                 Ok(Ok(_)) => {
@@ -1220,8 +1343,19 @@ impl World {
             }
         }
         // retry without faults
+        let m = self.reps[r].m.as_ref().unwrap();
         if m.has_staging() {
-            match m.commit(info.clone()) {
+            let rc = m.commit(info.clone());
+            {
+                let (cls, extra) = match &rc {
+                    Ok(None) => ("none", json!({})),
+                    Ok(Some(a)) => ("ok", json!({"id": a.iter().next().map(|x| x.to_string())})),
+                    Err(_) => ("err", json!({})),
+                };
+                self.emit("commit", r, cls, extra);
+            }
+            let m = self.reps[r].m.as_ref().unwrap();
+            match rc {
                 Ok(Some(_)) => {
                     let f = fresh_obs(&store.snapshot());
                     let mine = obs_doc(m);
@@ -1362,6 +1496,37 @@ impl World {
                 }
             }
         }
+        // corruption of a pack after a replica has loaded it: later reads return the original content or an error
+        let packs: Vec<&String> = keys.iter().filter(|k| k.ends_with(".pack")).collect();
+        if !packs.is_empty() {
+            let st = SimStore::from_items(items.clone());
+            if let (Ok(mut live), Ok(orig)) = (Melda::new(st.dyn_adapter()), fresh_on(&items)) {
+                for _ in 0..3 {
+                    let k = (*g.pick(&packs)).clone();
+                    let mut v = items[&k].clone();
+                    if v.is_empty() {
+                        continue;
+                    }
+                    let i = g.below(v.len());
+                    v[i] ^= 1 << g.below(8);
+                    st.put_raw(&k, v);
+                    let _ = live.refresh();
+                    *self.stats.entry("live_corruptions".into()).or_insert(0) += 1;
+                    for u in orig.get_all_objects() {
+                        for (rev, _, _) in orig.verif_tree_dump(&u).unwrap_or_default() {
+                            let want = orig.get_value(&u, Some(&rev));
+                            let got = catch_unwind(AssertUnwindSafe(|| live.get_value(&u, Some(&rev))));
+                            if let (Ok(w), Ok(Ok(gv))) = (&want, &got) {
+                                if w != gv {
+                                    fails.push(("C10", format!("after a bit flip in {} at byte {} revision {} of {} reads altered content {} instead of {}", k, i, rev, u, js(&Value::from(gv.clone())), js(&Value::from(w.clone())))));
+                                }
+                            }
+                        }
+                    }
+                    st.put_raw(&k, items[&k].clone());
+                }
+            }
+        }
         for (p, w) in fails {
             self.fail(p, w);
         }
@@ -1372,10 +1537,19 @@ impl World {
         let n = self.reps.len();
         let mut fails: Vec<(&str, String)> = vec![];
         for i in 0..n {
+            let mut ev = None;
             if let Some(m) = self.reps[i].m.as_mut() {
                 if m.has_staging() {
-                    let _ = m.commit(None);
+                    let rc = m.commit(None);
+                    ev = Some(match &rc {
+                        Ok(None) => ("none", json!({})),
+                        Ok(Some(a)) => ("ok", json!({"id": a.iter().next().map(|x| x.to_string())})),
+                        Err(_) => ("err", json!({})),
+                    });
                 }
+            }
+            if let Some((cls, extra)) = ev {
+                self.emit("commit", i, cls, extra);
             }
         }
         for round in 0..6 {
@@ -1384,16 +1558,30 @@ impl World {
                 for j in 0..n {
                     if i != j {
                         let (a, b) = two(&mut self.reps, i, j);
+                        let mut evs: Vec<(&str, &str, Value)> = vec![];
                         if let (Some(ma), Some(mb)) = (a.m.as_mut(), b.m.as_ref()) {
-                            if let Ok(v) = ma.meld(mb) {
+                            let mr = ma.meld(mb);
+                            if let Ok(v) = &mr {
                                 if !v.is_empty() {
                                     learned = true;
                                 }
                             }
-                            if ma.refresh().is_err() {
+                            evs.push(("meld", if mr.is_ok() { "ok" } else { "err" }, json!({"from": j})));
+                        }
+                        for (p, c, e) in evs.drain(..) {
+                            self.emit(p, i, c, e);
+                        }
+                        let a = &mut self.reps[i];
+                        if let Some(ma) = a.m.as_mut() {
+                            let rr = ma.refresh();
+                            if rr.is_err() {
                                 fails.push(("C08", "refresh failed during synchronisation".into()));
                             }
                             a.dirty = false;
+                            evs.push(("refresh", if rr.is_ok() { "ok" } else { "err" }, json!({})));
+                        }
+                        for (p, c, e) in evs.drain(..) {
+                            self.emit(p, i, c, e);
                         }
                     }
                 }
@@ -1706,7 +1894,13 @@ pub fn gen_op(w: &World, g: &mut Rng, sim_faults: bool) -> Value {
         match g.below(4) {
             0 => Value::Null,
             1 => json!({"author": "é\"x\\", "n": 1.5, "nested": {"a": [1, {"b": null}]}}),
-            2 => json!({"t": *g.pick(&special_strings())}),
+            2 => {
+                if g.chance(1, 3) {
+                    json!({})
+                } else {
+                    json!({"t": *g.pick(&special_strings())})
+                }
+            }
             _ => json!({"seq": g.below(1000)}),
         }
     };
@@ -1821,6 +2015,14 @@ pub fn main(args: &[String]) {
                 if w.fails.is_empty() {
                     w.apply(&json!({"op": "sync"}));
                 }
+                // time travel to every set of heads replica 0 ever had (most recent first)
+                let nheads = w.reps[0].heads_log.len();
+                for k in 0..nheads.min(8) {
+                    if !w.fails.is_empty() {
+                        break;
+                    }
+                    w.apply(&json!({"op": "timetravel", "r": 0, "pick": nheads - 1 - k}));
+                }
                 let final_obs: Vec<Value> = w.reps.iter().map(|r| r.m.as_ref().map(obs_noblocks).unwrap_or(Value::Null)).collect();
                 let dg = digest_string(&js(&Value::from(final_obs)));
                 digests.push(json!([h, dg]));
@@ -1836,6 +2038,10 @@ pub fn main(args: &[String]) {
                 }
                 if w.reps.iter().any(|r| r.array_conflict_seen) {
                     *stats_total.entry("histories_with_array_conflict_at_update".into()).or_insert(0) += 1;
+                }
+                if let Some(pd) = args.iter().position(|a| a == "--ptrace-dir").and_then(|i| args.get(i + 1)) {
+                    std::fs::create_dir_all(pd).unwrap();
+                    std::fs::write(format!("{}/h{}.ptrace", pd, h), w.ptrace.join("\n") + "\n").unwrap();
                 }
                 if !w.fails.is_empty() {
                     let tpath = format!("{}/fail_{}_{}.trace", out, seed, h);
@@ -1878,6 +2084,10 @@ pub fn main(args: &[String]) {
             }
             for f in &w.fails {
                 writeln!(ff, "{}", json!({"property": f.property, "what": f.what, "op_index": f.op_index})).unwrap();
+            }
+            if let Some(pd) = args.iter().position(|a| a == "--ptrace-dir").and_then(|i| args.get(i + 1)) {
+                std::fs::create_dir_all(pd).unwrap();
+                std::fs::write(format!("{}/h0.ptrace", pd), w.ptrace.join("\n") + "\n").unwrap();
             }
             for (k, v) in &w.stats {
                 *stats_total.entry(k.clone()).or_insert(0) += v;
